@@ -128,6 +128,10 @@ def handle : Handler
     let ds ← decList dirs
     let fs ← decList files
     pure (encOpt encStr (lookupFile ds ds.reverse (fun f => fs.contains f) (← decStr uri)))
+  | ["srcbytes", b] => do
+    -- bytes are sent as a string of code points 0..255; answer: the bytes `ModuleInfo.source` decodes
+    let bs := (← decStr b).map Char.toNat
+    pure (encStr ((sourcePayload Generated.Paths8.sourceStripsOneBom bs).map Char.ofNat))
   | "registry" :: ops => runRegistry ops
   | "codehist" :: src :: mf :: ops => do
     -- `codehist <module_source|none> <module_filename|none> (w:<path>:<content> | q)*` : answers of every `q`
